@@ -354,8 +354,16 @@ class Conic(Quadric):
         if any(tangent.contains(p) for p in [a, b, c, d]):
             raise IncidenceError("The supplied points cannot lie on the supplied tangent!")
 
-        a1, a2 = Line(a, c).meet(tangent).normalized_array, Line(b, d).meet(tangent).normalized_array
-        b1, b2 = Line(a, b).meet(tangent).normalized_array, Line(c, d).meet(tangent).normalized_array
+        def representative(p: Point) -> np.ndarray:
+            # the choice between the two solutions depends on the signs of these coordinate vectors, so they have to be
+            # determined by the points alone: points at infinity are not normalized and are divided by their largest entry
+            v = p.normalized_array
+            if p.isinf:
+                v = v / v[np.argmax(np.abs(v))]
+            return v
+
+        a1, a2 = representative(Line(a, c).meet(tangent)), representative(Line(b, d).meet(tangent))
+        b1, b2 = representative(Line(a, b).meet(tangent)), representative(Line(c, d).meet(tangent))
 
         o = tangent.general_point.array
 
